@@ -47,6 +47,8 @@ enum Script {
 struct Step {
     sleep_ms: u64,
     client: [u8; 4],
+    /// the server address the query is sent to (the service listens on the wildcard address)
+    local: [u8; 4],
     port53: bool,
     tcp: bool,
     query: Vec<u8>,
@@ -317,7 +319,10 @@ async fn run_history(h: &Hist) -> Option<Toks> {
     })
     .await;
     hk::set_cookie_keys(h.cur, h.prev).await;
-    let (svc, udp, tcp) = hk::service_from_config(conf, vec![IpAddr::V4(Ipv4Addr::LOCALHOST).with_port(0)]).await.ok()?;
+    // upstream TCP connections idle for 0.7 s are closed (120 s in production): histories that pause reach the
+    // re-opening of a connection
+    hk::set_tcp_idle_timeout(Duration::from_millis(700));
+    let (svc, udp, tcp) = hk::service_from_config(conf, vec![IpAddr::V4(Ipv4Addr::UNSPECIFIED).with_port(0)]).await.ok()?;
     let t_svc = tokio::spawn(async move {
         let _ = svc.run().await;
     });
@@ -338,6 +343,7 @@ async fn run_history(h: &Hist) -> Option<Toks> {
         *st.tcp_sent.lock().unwrap() = None;
         *st.answered_at.lock().unwrap() = None;
         let cip = Ipv4Addr::from(s.client);
+        let lip = Ipv4Addr::from(s.local);
         let wait = Duration::from_millis(if matches!(s.script, Script::Silent) { 20_000 } else { 300 });
         let t_s = std::time::SystemTime::now().duration_since(std::time::UNIX_EPOCH).unwrap().as_secs();
         let t_ns = t0.elapsed();
@@ -347,7 +353,7 @@ async fn run_history(h: &Hist) -> Option<Toks> {
             let sock = TcpSocket::new_v4().ok()?;
             let _ = sock.set_reuseaddr(true);
             sock.bind(SocketAddr::new(IpAddr::V4(cip), 0)).ok()?;
-            if let Ok(Ok(mut c)) = tokio::time::timeout(Duration::from_secs(2), sock.connect(tcp[0])).await {
+            if let Ok(Ok(mut c)) = tokio::time::timeout(Duration::from_secs(2), sock.connect(SocketAddr::new(IpAddr::V4(lip), tcp[0].port()))).await {
                 sport = c.local_addr().map(|a| a.port()).unwrap_or(0);
                 let mut o = (s.query.len() as u16).to_be_bytes().to_vec();
                 o.extend(&s.query);
@@ -365,14 +371,16 @@ async fn run_history(h: &Hist) -> Option<Toks> {
         } else {
             let c = UdpSocket::bind(SocketAddr::new(IpAddr::V4(cip), if s.port53 { 53 } else { 0 })).await.ok()?;
             sport = c.local_addr().map(|a| a.port()).unwrap_or(0);
-            let _ = c.send_to(&s.query, udp[0]).await;
+            // a connected socket, as a stub resolver has: only a reply from the address the query went to is received
+            let _ = c.connect(SocketAddr::new(IpAddr::V4(lip), udp[0].port())).await;
+            let _ = c.send(&s.query).await;
             let mut buf = vec![0u8; 65536];
-            if let Ok(Ok((l, _))) = tokio::time::timeout(wait, c.recv_from(&mut buf)).await {
+            if let Ok(Ok(l)) = tokio::time::timeout(wait, c.recv(&mut buf)).await {
                 reply = Some(buf[..l].to_vec());
             } else if st.udp_sent.lock().unwrap().is_some() || st.tcp_sent.lock().unwrap().is_some() {
                 // an upstream has answered and nothing has come back yet: on a loaded machine the
                 // service may simply not have been scheduled; give it more time before calling it silence
-                if let Ok(Ok((l, _))) = tokio::time::timeout(Duration::from_secs(3), c.recv_from(&mut buf)).await {
+                if let Ok(Ok(l)) = tokio::time::timeout(Duration::from_secs(3), c.recv(&mut buf)).await {
                     reply = Some(buf[..l].to_vec());
                 }
             }
@@ -391,14 +399,14 @@ async fn run_history(h: &Hist) -> Option<Toks> {
         t.n(t_s).n(t_ns.as_secs()).n(t_ns.subsec_nanos() as u64);
         t.n(t_after.as_secs()).n(t_after.subsec_nanos() as u64); // the reply is here: the result has been stored
         t.n(4).n(u32::from(cip) as u64).n(sport as u64).b(s.tcp);
-        t.n(4).n(u32::from(Ipv4Addr::LOCALHOST) as u64);
+        t.n(4).n(u32::from(lip) as u64);
         t.n(b1 as u64).n(b2 as u64);
-        t.bytes(format!("{}", Ipv4Addr::LOCALHOST).as_bytes()); // the NSID text: the receiving address
+        t.bytes(format!("{}", lip).as_bytes()); // the NSID text: the receiving address
         // the server cookie this server issues now to this client for the query's client cookie
         let iss = erbium::dns::dnspkt::verif::parse(&s.query)
             .ok()
             .and_then(|p| p.edns.as_ref().and_then(|e| e.get_cookie().map(|(c, _)| c.to_vec())))
-            .map(|c| issued(&c, s.client, &h.cur))
+            .map(|c| issued(&c, s.client, s.local, &h.cur))
             .unwrap_or_default();
         t.bytes(&iss);
         t.bytes(&s.query);
@@ -486,7 +494,7 @@ fn query_bytes(q: &QSpec) -> Vec<u8> {
 }
 
 /// the server cookie this server issues to (client cookie, client address) under `key`
-fn issued(cookie: &[u8], client: [u8; 4], key: &[u8]) -> Vec<u8> {
+fn issued(cookie: &[u8], client: [u8; 4], local: [u8; 4], key: &[u8]) -> Vec<u8> {
     use erbium::dns::dnspkt::verif as pk;
     use erbium_net::addr::WithPort as _;
     let q = pk::parse(&query_bytes(&QSpec {
@@ -496,7 +504,7 @@ fn issued(cookie: &[u8], client: [u8; 4], key: &[u8]) -> Vec<u8> {
     let msg = erbium::dns::DnsMessage {
         in_query: q,
         in_size: 0,
-        local_ip: IpAddr::V4(Ipv4Addr::LOCALHOST),
+        local_ip: IpAddr::V4(Ipv4Addr::from(local)),
         remote_addr: Ipv4Addr::from(client).with_port(1),
         protocol: erbium::dns::Protocol::Udp,
     };
@@ -535,9 +543,10 @@ fn gen_hist(r: &mut Rng, stats: &mut Stats, thorough: bool) -> Hist {
     ];
     let clients: Vec<[u8; 4]> = vec![[127, 0, 1, 5], [127, 0, 1, 200], [127, 0, 2, 9], [127, 0, 3, 3], [127, 0, 4, 1]];
     let mut steps = vec![];
-    let flavour = r.below(6);
-    let nsteps = r.range(5, 12);
+    let flavour = r.below(8);
+    let nsteps = if flavour == 6 { r.range(3, 5) } else { r.range(5, 12) };
     let heavy = *r.pick(&clients);
+    let (home_local, other_local) = if r.chance(1, 4) { ([127, 0, 0, 2], [127, 0, 0, 1]) } else { ([127, 0, 0, 1], [127, 0, 0, 2]) };
     let focus = r.pick(&names).clone();
     let mut sleeps = 0;
     for i in 0..nsteps {
@@ -548,25 +557,35 @@ fn gen_hist(r: &mut Rng, stats: &mut Stats, thorough: bool) -> Hist {
         let steady = flavour == 1 && r.chance(4, 5);
         let client = if steady { [127, 0, 1, 5] } else { client };
         let name = if steady || r.chance(3, 5) { focus.clone() } else { r.pick(&names).clone() };
-        let tcp = r.chance(1, 6) && flavour != 0;
-        let cookie = match r.below(8) {
+        let tcp = (r.chance(1, 6) && flavour != 0) || flavour == 6;
+        // the server has two addresses; a history mostly stays with one
+        let local = if r.chance(1, 5) { other_local } else { home_local };
+        let cookie = match r.below(9) {
             0 => Some(r.bytes(8)),
             1 => {
                 let c = r.bytes(8);
                 let mut d = c.clone();
-                d.extend(issued(&c, client, &cur)); // a cookie this server handed out earlier
+                d.extend(issued(&c, client, local, &cur)); // a cookie this server handed out earlier
                 stats.bump("cookie.valid");
                 Some(d)
             }
             2 => {
                 let c = r.bytes(8);
                 let mut d = c.clone();
-                d.extend(issued(&c, [127, 0, 9, 9], &cur)); // issued to another address
+                d.extend(issued(&c, [127, 0, 9, 9], local, &cur)); // issued to another address
                 Some(d)
             }
             3 => {
                 let k = r.range(1, 7) as usize; // shorter than a client cookie
                 Some(r.bytes(k))
+            }
+            4 => {
+                let c = r.bytes(8);
+                let mut d = c.clone();
+                // issued to this client by this server, but at its other address
+                d.extend(issued(&c, client, if local == home_local { other_local } else { home_local }, &cur));
+                stats.bump("cookie.other-server-address");
+                Some(d)
             }
             _ => None,
         };
@@ -575,7 +594,13 @@ fn gen_hist(r: &mut Rng, stats: &mut Stats, thorough: bool) -> Hist {
         } else {
             None
         };
-        let q = QSpec {
+        // flavour 6: queries over TCP for different names from an allowed client, a second apart: the resolver's
+        // upstream TCP connection goes idle, is closed and opened again.  flavour 7: the same question with and
+        // without RD, in class IN and CH: what the cache holds must not answer a query that may not be forwarded
+        let idle = flavour == 6;
+        let rdflip = flavour == 7;
+        let (client, name) = if idle { ([127, 0, 1, 5], names[i as usize % 5].clone()) } else if rdflip { ([127, 0, 1, 5], focus.clone()) } else { (client, name) };
+        let mut q = QSpec {
             id: r.next() as u16,
             rd: steady || !r.chance(1, 8),
             cd: !steady && r.chance(1, 10),
@@ -585,12 +610,32 @@ fn gen_hist(r: &mut Rng, stats: &mut Stats, thorough: bool) -> Hist {
             qclass: if !steady && r.chance(1, 15) { 3 } else { 1 },
             edns,
         };
-        let script = match r.below(14) {
+        if idle {
+            q.rd = true;
+            q.qclass = 1;
+            q.hdr = 0;
+        }
+        if rdflip {
+            q.rd = i % 2 == 0;
+            q.qclass = if i % 3 == 2 { 3 } else { 1 };
+            q.qtype = 1;
+            q.cd = false;
+            q.hdr = 0;
+        }
+        let script = match if idle || rdflip { 13 } else { r.below(14) } {
             0 => Script::Garbage,
             1 if thorough && r.chance(1, 6) => Script::Silent,
             2 => Script::Reply { a: vec![], n: vec![], d: vec![], rdlen: 4, tc: false, wrong_id: false, rcode: *r.pick(RCODES), stray: r.chance(1, 3) },
             _ => {
-                let ttl = |r: &mut Rng| if steady { *r.pick(&[1u32, 1, 2, 3]) } else { *r.pick(&[1u32, 1, 2, 3, 7, 8, 9, 30, 60, 600, 0, 86400]) };
+                let ttl = |r: &mut Rng| {
+                    if steady {
+                        *r.pick(&[1u32, 1, 2, 3])
+                    } else if rdflip {
+                        *r.pick(&[30u32, 60, 600])
+                    } else {
+                        *r.pick(&[1u32, 1, 2, 3, 7, 8, 9, 30, 60, 600, 0, 86400])
+                    }
+                };
                 let big = r.chance(1, 4);
                 Script::Reply {
                     a: (0..r.range(1, 3)).map(|_| ttl(r).max(1)).collect(),
@@ -598,9 +643,9 @@ fn gen_hist(r: &mut Rng, stats: &mut Stats, thorough: bool) -> Hist {
                     d: (0..r.below(2)).map(|_| if r.chance(1, 10) { 0 } else { ttl(r).max(1) }).collect(),
                     // (the larger ones make replies of 4-13k octets: beyond what the service itself advertises upstream)
                     rdlen: if big { *r.pick(&[150usize, 200, 240, 1400, 2100]) } else { 4 },
-                    tc: r.chance(1, 12),
-                    wrong_id: r.chance(1, 14),
-                    rcode: *r.pick(RCODES),
+                    tc: !idle && !rdflip && r.chance(1, 12),
+                    wrong_id: !idle && !rdflip && r.chance(1, 14),
+                    rcode: if idle || rdflip { 0 } else { *r.pick(RCODES) },
                     stray: r.chance(1, 3),
                 }
             }
@@ -609,19 +654,34 @@ fn gen_hist(r: &mut Rng, stats: &mut Stats, thorough: bool) -> Hist {
             sleeps += 1;
             stats.bump("sleep.1100ms");
             1100
+        } else if idle && i > 0 && sleeps < 3 {
+            sleeps += 1;
+            stats.bump("sleep.1000ms-tcp-idle");
+            1000
         } else {
             0
         };
-        steps.push(Step { sleep_ms, client, port53: !tcp && r.chance(1, 40), tcp, query: query_bytes(&q), script });
+        steps.push(Step { sleep_ms, client, local, port53: !tcp && r.chance(1, 40), tcp, query: query_bytes(&q), script });
     }
     if flavour == 0 {
         // one source hammering: the same refused (or not authoritative) query 13 times
+        // ... sometimes presenting a server cookie that this server did issue to this client -- at its other address
+        let edns = if r.chance(1, 3) {
+            let c = r.bytes(8);
+            let mut d = c.clone();
+            d.extend(issued(&c, heavy, other_local, &cur));
+            stats.bump("hammer.cookie-from-other-address");
+            Some((1232u16, false, false, Some(d)))
+        } else {
+            None
+        };
         let refused = Step {
             sleep_ms: 0,
             client: heavy,
+            local: home_local,
             port53: false,
             tcp: false,
-            query: query_bytes(&QSpec { id: 7, rd: false, cd: false, hdr: 0, name: nm(&["www", "example"]), qtype: 255, qclass: 1, edns: None }),
+            query: query_bytes(&QSpec { id: 7, rd: false, cd: false, hdr: 0, name: nm(&["www", "example"]), qtype: 255, qclass: 1, edns }),
             script: Script::Garbage,
         };
         for _ in 0..13 {
@@ -700,7 +760,7 @@ fn parse_hist(toks: &[u64]) -> Option<Hist> {
         let port = c.n()?;
         let tcp = c.n()? != 0;
         c.n()?;
-        c.n()?; // local
+        let local = (c.n()? as u32).to_be_bytes(); // local
         c.n()?;
         c.n()?; // buckets
         c.bytes()?;
@@ -733,7 +793,7 @@ fn parse_hist(toks: &[u64]) -> Option<Hist> {
                 Script::Reply { a: l[0].clone(), n: l[1].clone(), d: l[2].clone(), rdlen, tc, wrong_id, rcode, stray }
             }
         };
-        steps.push(Step { sleep_ms, client, port53: port == 53, tcp, query, script });
+        steps.push(Step { sleep_ms, client, local, port53: port == 53, tcp, query, script });
     }
     Some(Hist { rules, table, cur, prev, steps })
 }
